@@ -32,8 +32,8 @@ func VerifMarshalCompressedCert(v VerifCompressedCert) ([]byte, error) {
 	return m.marshal()
 }
 
-// VerifServerEE is the parsed view of an encryptedExtensionsMsg (including the uTLS extra fields).
-type VerifServerEE struct {
+// VerifFuzzServerEE is the parsed view of an encryptedExtensionsMsg (including the uTLS extra fields).
+type VerifFuzzServerEE struct {
 	ALPN       string
 	HasQUICTP  bool
 	QUICTP     []byte
@@ -46,10 +46,10 @@ type VerifServerEE struct {
 }
 
 // VerifUnmarshalServerEE runs encryptedExtensionsMsg.unmarshal (with utlsUnmarshal).
-func VerifUnmarshalServerEE(data []byte) (VerifServerEE, bool) {
+func VerifUnmarshalServerEE(data []byte) (VerifFuzzServerEE, bool) {
 	var m encryptedExtensionsMsg
 	ok := m.unmarshal(data)
-	return VerifServerEE{
+	return VerifFuzzServerEE{
 		ALPN: m.alpnProtocol, HasQUICTP: m.quicTransportParameters != nil, QUICTP: m.quicTransportParameters,
 		EarlyData: m.earlyData, ECHRetry: m.echRetryConfigs,
 		ALPS: m.utls.applicationSettings, ALPSCode: m.utls.applicationSettingsCodepoint, CustomExt: m.utls.customExtension,
@@ -58,7 +58,7 @@ func VerifUnmarshalServerEE(data []byte) (VerifServerEE, bool) {
 }
 
 // VerifMarshalServerEE runs encryptedExtensionsMsg.marshal (which ignores the uTLS extra fields).
-func VerifMarshalServerEE(v VerifServerEE) ([]byte, error) {
+func VerifMarshalServerEE(v VerifFuzzServerEE) ([]byte, error) {
 	m := encryptedExtensionsMsg{alpnProtocol: v.ALPN, earlyData: v.EarlyData, echRetryConfigs: v.ECHRetry}
 	if v.HasQUICTP {
 		m.quicTransportParameters = v.QUICTP
